@@ -4,7 +4,9 @@ import Std.Data.String.ToInt
 
 After any sequence of inserts / deletes / queries, `CheckIfAllowed` returns what the same engine
 would return without any cache (cached results never leak through an update); admin policies stay
-ordered by priority whatever the insertion order; deleting an absent object is a no-op.
+ordered by priority whatever the insertion order, with pairwise distinct priorities within 0..1000
+(an insertion that would break this is refused and changes nothing); deleting an absent object is a
+no-op.
 
 The model is `Netpol.Model.Cache` (`EState.insert`, `EState.delete`, `EState.checkIfAllowed`); the
 proofs are in `Netpol.Proofs.CacheLayer`.
@@ -90,28 +92,151 @@ theorem anps_sorted_invariant' (ops : List HOp) :
     ((EState.run {} ops).eng.anps).Pairwise (fun a b => a.prio ≤ b.prio) :=
   EState.run_byPrio (s := {}) List.Pairwise.nil ops
 
-/-- **the insertion order is irrelevant**: two permutations of a list of admin policies with
-distinct (fresh) names and distinct priorities, inserted into the same engine (sorted, priorities
-distinct from the new ones), are both accepted and yield the same slice -/
-theorem anps_insertion_order_irrelevant (e : Engine) (l₁ l₂ : List ANP) (hp : l₁.Perm l₂)
-    (hexp : e.exposure = false) (hn : (e.anpNames ++ l₁.map (·.name)).Nodup)
-    (hs : e.anps.Pairwise (fun a b => a.prio ≤ b.prio))
-    (hprio : ((l₁ ++ e.anps).map (·.prio)).Nodup) :
-    ∃ e₁ e₂, l₁.foldlM Engine.insertANP e = .ok e₁ ∧ l₂.foldlM Engine.insertANP e = .ok e₂ ∧
-      e₁.anps = e₂.anps :=
-  CacheLayer.insertANPs_perm e l₁ l₂ hp hexp hn hs hprio
+/-- the admission condition of a sequence of `InsertObject` calls on admin policies, clause by
+clause (`CacheLayer.Insertable e l`): exposure analysis off, names new and pairwise distinct,
+priorities within 0..1000, held by no policy of the engine and pairwise distinct. All clauses are
+about the multiset of `l`. -/
+theorem anps_accepted_iff (e : Engine) (l : List ANP) :
+    (∃ e', l.foldlM Engine.insertANP e = .ok e') ↔
+      (l ≠ [] → e.exposure = false) ∧ (∀ a ∈ l, a.name ∉ e.anpNames) ∧ (l.map (·.name)).Nodup ∧
+      (∀ a ∈ l, 0 ≤ a.prio ∧ a.prio ≤ 1000) ∧ (∀ a ∈ l, ∀ b ∈ e.anps, b.prio ≠ a.prio) ∧
+      (l.map (·.prio)).Nodup := by
+  have hv : ∀ a : ANP, a.validPriority = true ↔ (0 ≤ a.prio ∧ a.prio ≤ 1000) := by
+    intro a; unfold ANP.validPriority; simp
+  constructor
+  · intro h
+    have hi := (CacheLayer.insertANPs_ok_iff e l).mp h
+    exact ⟨hi.expo, hi.fresh, hi.names, fun a ha => (hv a).mp (hi.valid a ha), hi.free, hi.prios⟩
+  · rintro ⟨h1, h2, h3, h4, h5, h6⟩
+    exact (CacheLayer.insertANPs_ok_iff e l).mpr ⟨h1, h2, h3, fun a ha => (hv a).mpr (h4 a ha), h5, h6⟩
+
+/-- **the insertion order is irrelevant — for admission and for the result.** Two permutations of
+any list of admin policies, inserted one by one into any engine: either both sequences are
+rejected (an insertion with a name or a priority held already, or a priority outside 0..1000, is
+refused, in whatever order the policies come; the class of the error is `dupANP` or `anpPriority`,
+or `exposureWithANP` when the engine runs the exposure analysis), or both are accepted and the
+engines hold the same sorted slice — they are equal up to the order of the name map. No hypothesis:
+that the priorities are pairwise distinct and within the range is enforced by `insertANP`, not
+assumed. -/
+theorem anps_insertion_order_irrelevant (e : Engine) (l₁ l₂ : List ANP) (hp : l₁.Perm l₂) :
+    (∃ err₁ err₂, l₁.foldlM Engine.insertANP e = .error err₁ ∧
+        l₂.foldlM Engine.insertANP e = .error err₂ ∧
+        (err₁ = .exposureWithANP ∧ e.exposure = true ∨ err₁ = .dupANP ∨ err₁ = .anpPriority) ∧
+        (err₂ = .exposureWithANP ∧ e.exposure = true ∨ err₂ = .dupANP ∨ err₂ = .anpPriority)) ∨
+    (∃ e₁ e₂, l₁.foldlM Engine.insertANP e = .ok e₁ ∧ l₂.foldlM Engine.insertANP e = .ok e₂ ∧
+      e₁.anps = e₂.anps ∧ e₁.anpNames.Perm e₂.anpNames ∧
+      e₂ = { e₁ with anpNames := e₂.anpNames }) := by
+  rcases CacheLayer.insertANPs_perm e hp with ⟨err₁, err₂, h1, h2⟩ | h
+  · exact Or.inl ⟨err₁, err₂, h1, h2, CacheLayer.insertANPs_error h1, CacheLayer.insertANPs_error h2⟩
+  · exact Or.inr h
 
 /-- from the empty engine -/
-theorem anps_insertion_order_irrelevant_empty (l₁ l₂ : List ANP) (hp : l₁.Perm l₂)
-    (hn : (l₁.map (·.name)).Nodup) (hprio : (l₁.map (·.prio)).Nodup) :
-    ∃ e₁ e₂, l₁.foldlM Engine.insertANP {} = .ok e₁ ∧ l₂.foldlM Engine.insertANP {} = .ok e₂ ∧
-      e₁.anps = e₂.anps :=
-  CacheLayer.insertANPs_perm {} l₁ l₂ hp rfl (by simpa using hn) List.Pairwise.nil (by simpa using hprio)
+theorem anps_insertion_order_irrelevant_empty (l₁ l₂ : List ANP) (hp : l₁.Perm l₂) :
+    (∃ err₁ err₂, l₁.foldlM Engine.insertANP {} = .error err₁ ∧
+        l₂.foldlM Engine.insertANP {} = .error err₂ ∧
+        (err₁ = .dupANP ∨ err₁ = .anpPriority) ∧ (err₂ = .dupANP ∨ err₂ = .anpPriority)) ∨
+    (∃ e₁ e₂, l₁.foldlM Engine.insertANP {} = .ok e₁ ∧ l₂.foldlM Engine.insertANP {} = .ok e₂ ∧
+      e₁.anps = e₂.anps) := by
+  rcases anps_insertion_order_irrelevant {} l₁ l₂ hp with ⟨err₁, err₂, h1, h2, c1, c2⟩ | ⟨e₁, e₂, h1, h2, h3, _⟩
+  · refine Or.inl ⟨err₁, err₂, h1, h2, ?_, ?_⟩
+    · rcases c1 with ⟨_, h⟩ | h | h
+      · cases h
+      · exact Or.inl h
+      · exact Or.inr h
+    · rcases c2 with ⟨_, h⟩ | h | h
+      · cases h
+      · exact Or.inl h
+      · exact Or.inr h
+  · exact Or.inr ⟨e₁, e₂, h1, h2, h3⟩
+
+/-- the former statement, as a corollary: when the admission condition holds (the names are new
+and pairwise distinct, the priorities within the range, new and pairwise distinct) both orders are
+accepted and yield the same slice. The engine need not be sorted. -/
+theorem anps_insertion_order_irrelevant_accepted (e : Engine) (l₁ l₂ : List ANP) (hp : l₁.Perm l₂)
+    (hexp : e.exposure = false) (hn : (e.anpNames ++ l₁.map (·.name)).Nodup)
+    (hprio : ((l₁ ++ e.anps).map (·.prio)).Nodup)
+    (hvalid : ∀ a ∈ l₁, 0 ≤ a.prio ∧ a.prio ≤ 1000) :
+    ∃ e₁ e₂, l₁.foldlM Engine.insertANP e = .ok e₁ ∧ l₂.foldlM Engine.insertANP e = .ok e₂ ∧
+      e₁.anps = e₂.anps := by
+  have hacc : ∃ e', l₁.foldlM Engine.insertANP e = .ok e' := by
+    rw [anps_accepted_iff]
+    rw [List.map_append] at hprio
+    obtain ⟨n1, n2, n3⟩ := List.nodup_append.mp hn
+    obtain ⟨p1, p2, p3⟩ := List.nodup_append.mp hprio
+    refine ⟨fun _ => hexp, ?_, n2, hvalid, ?_, p1⟩
+    · intro a ha hm
+      exact n3 _ hm _ (List.mem_map.mpr ⟨a, ha, rfl⟩) rfl
+    · intro a ha b hb hne
+      exact p3 _ (List.mem_map.mpr ⟨a, ha, rfl⟩) _ (List.mem_map.mpr ⟨b, hb, rfl⟩) hne.symm
+  obtain ⟨e', he'⟩ := hacc
+  rcases anps_insertion_order_irrelevant e l₁ l₂ hp with ⟨err₁, _, h1, _⟩ | ⟨e₁, e₂, h1, h2, h3, _⟩
+  · rw [he'] at h1; cases h1
+  · exact ⟨e₁, e₂, h1, h2, h3⟩
+
+/-- the error *class* of a rejected sequence may depend on the order when the list holds both a
+repeated name and a repeated priority: the first conflict met is the one reported -/
+example :
+    let a5 : ANP := ⟨"a", 5, .nss ⟨[], []⟩, [], []⟩
+    let b5 : ANP := ⟨"b", 5, .nss ⟨[], []⟩, [], []⟩
+    let a7 : ANP := ⟨"a", 7, .nss ⟨[], []⟩, [], []⟩
+    ([a5, b5, a7].Perm [a5, a7, b5]) ∧
+    (match [a5, b5, a7].foldlM Engine.insertANP {} with | .error err => some err | .ok _ => none)
+      = some .anpPriority ∧
+    (match [a5, a7, b5].foldlM Engine.insertANP {} with | .error err => some err | .ok _ => none)
+      = some .dupANP := by
+  refine ⟨(List.Perm.swap _ _ _).cons _, ?_, ?_⟩ <;> decide
 
 /-- in every reachable state the sorted slice and the name map agree -/
 theorem anps_names_invariant (n : Nat) (ops : List HOp) :
     AdmInv (EState.run { cache := { cap := n } } ops).eng :=
   EState.run_admInv (s := { cache := { cap := n } }) ⟨List.nodup_nil, fun _ h => by cases h⟩ ops
+
+/-- **in every reachable state the held admin policies have pairwise distinct priorities, all
+within 0..1000**: an insertion that would break this is refused by `insertANP` (it used to be
+examined by the sort of the batch path only), deletions and clears cannot break it -/
+theorem anps_priorities_invariant (n : Nat) (ops : List HOp) :
+    ((EState.run { cache := { cap := n } } ops).eng.anps.map (·.prio)).Nodup ∧
+    ∀ a ∈ (EState.run { cache := { cap := n } } ops).eng.anps, 0 ≤ a.prio ∧ a.prio ≤ 1000 := by
+  obtain ⟨h1, h2⟩ := EState.run_prioInv (s := { cache := { cap := n } }) Structure.prioInv_empty ops
+  refine ⟨h1, fun a ha => ?_⟩
+  have := h2 a ha
+  unfold ANP.validPriority at this
+  simpa using this
+
+theorem anps_priorities_invariant' (ops : List HOp) :
+    ((EState.run {} ops).eng.anps.map (·.prio)).Nodup ∧
+    ∀ a ∈ (EState.run {} ops).eng.anps, 0 ≤ a.prio ∧ a.prio ≤ 1000 := by
+  obtain ⟨h1, h2⟩ := EState.run_prioInv (s := {}) Structure.prioInv_empty ops
+  refine ⟨h1, fun a ha => ?_⟩
+  have := h2 a ha
+  unfold ANP.validPriority at this
+  simpa using this
+
+/-- hence the slice is *strictly* ordered by priority in every reachable state: the order in which
+`getAllAllowedXgressConnectionsFromANPs` visits the policies is determined by their priorities -/
+theorem anps_strictly_sorted_invariant (n : Nat) (ops : List HOp) :
+    ((EState.run { cache := { cap := n } } ops).eng.anps).Pairwise (fun a b => a.prio < b.prio) :=
+  CacheLayer.strict_of_byPrio_nodup (anps_sorted_invariant n ops) (anps_priorities_invariant n ops).1
+
+/-- **an admin policy whose priority is held already is refused and nothing changes**: the answer
+of `InsertObject` is the error `anpPriority` (the exposure flag being off and the name new — the
+two checks that come first), and the state — engine, name map, cache, owner bookkeeping — is the
+state before -/
+theorem insert_same_priority_noop (s : EState) {a b : ANP} (hexp : s.eng.exposure = false)
+    (hn : a.name ∉ s.eng.anpNames) (hb : b ∈ s.eng.anps) (hp : b.prio = a.prio) :
+    s.insert (.anp a) = (.err .anpPriority, s) :=
+  EState.insert_same_prio s hexp hn hb hp
+
+/-- the same for a priority outside 0..1000 -/
+theorem insert_invalid_priority_noop (s : EState) {a : ANP} (hexp : s.eng.exposure = false)
+    (hn : a.name ∉ s.eng.anpNames) (hv : ¬ (0 ≤ a.prio ∧ a.prio ≤ 1000)) :
+    s.insert (.anp a) = (.err .anpPriority, s) :=
+  EState.insert_invalid_prio s hexp hn (by unfold ANP.validPriority; simpa using hv)
+
+/-- whatever the object and the reason: a rejected `InsertObject` leaves the state as it is -/
+theorem rejected_insert_noop (s : EState) (o : Obj) {err : Err} (h : (s.insert o).1 = .err err) :
+    (s.insert o).2 = s :=
+  EState.insert_err_unchanged s o h
 
 /-- **deleting an absent object is a no-op**: the answer is `ok` and the engine is unchanged. For a
 pod and the baseline policy the whole state is unchanged; for a namespace, a NetworkPolicy and an
